@@ -493,7 +493,6 @@ def eval_trow(case):
         if col_level:
             fails.append(Fail(col_level, f'{src}: columns {got!r}; list slicing of every column gives {want!r}', want, got))
         else:
-            alike = len({tuple(i for i, x in enumerate(full) if True) for full in got}) <= 1
             fails.append(Fail(f'C07:{site}:wrong-cells', f'{src}: columns {got!r}; expected {want!r}', want, got))
     if r.column_names() != names:
         fails.append(Fail(f'C07:{site}:column-names-changed', f'{src}.column_names() = {r.column_names()!r}', names, r.column_names()))
